@@ -423,7 +423,30 @@ _ = virocon
 # highest-density-contour helpers shared by C02 and C15
 import math  # noqa: E402
 import warnings  # noqa: E402
+import scipy.stats as sts  # noqa: E402
 
+class TwoSystemNormal(NormalDistribution):
+    """equal mixture of N(mu, sigma) and N(mu + 3, sigma) ("wind sea + swell"): a user-defined family with a bimodal
+    conditional, so that two disconnected regions can be parallel diagonal bands whose bounding boxes overlap"""
+    shift = 3.0
+
+    def cdf(self, x, mu=None, sigma=None):
+        loc, scale = self._get_scipy_parameters(mu, sigma)
+        return 0.5 * sts.norm.cdf(x, loc, scale) + 0.5 * sts.norm.cdf(x, loc + self.shift, scale)
+
+    def pdf(self, x, mu=None, sigma=None):
+        loc, scale = self._get_scipy_parameters(mu, sigma)
+        return 0.5 * sts.norm.pdf(x, loc, scale) + 0.5 * sts.norm.pdf(x, loc + self.shift, scale)
+
+
+FAMILIES["TwoSystemNormal"] = TwoSystemNormal  # (not in FAMILY_NAMES: never drawn by the random recipe generator)
+
+BIMODAL_DIAGONAL_2D = {
+    "dims": [
+        {"family": "Normal", "params": {"mu": 5.0, "sigma": 1.5}},
+        {"family": "TwoSystemNormal", "cond": 0, "fixed": {"sigma": 0.35}, "dep": {"mu": {"shape": "linear2", "coef": [0.0, 1.0]}}},
+    ]
+}
 BIMODAL_2D = {
     "dims": [
         {"family": "Normal", "params": {"mu": 5.0, "sigma": 1.0}},
@@ -647,6 +670,9 @@ def hdc_gen_scenarios(tier, seed, purpose):
     add("core/omae-vhs-default-limits", OMAE_V_HS, 1e-2, [120, 90], limits="default", deltas_form="ndarray")
     add("core/bimodal", BIMODAL_2D, 0.25, [200, 200], iso=True)
     add("core/bimodal-aniso", BIMODAL_2D, 0.25, [250, 100])
+    # two regions that are parallel diagonal bands: the bounding box of each contains cells of the other
+    scen.append({"label": "core/bimodal-diagonal-bands", "recipe": BIMODAL_DIAGONAL_2D, "alpha": 0.2, "global_seed": 0, "call": "keywords",
+                 "limits": [[0.0, 10.0], [-2.0, 15.0]], "limits_form": "lists", "deltas": [0.1, 0.1], "deltas_form": "list"})
     add("core/too-small-grid", DNVGL_HS_TZ, 1e-4, [60, 60], shrink=0.35)
     # isotropic grid, region touching the lower grid edge (boundary two cells thick there)
     scen.append({"label": "core/iso-region-at-grid-edge", "recipe": EDGE_2D, "alpha": 4.357466301854152e-06, "global_seed": 0, "call": "keywords",
